@@ -5,7 +5,8 @@ from .common import NONE
 
 TIER = os.environ.get("VERIF_TIER", "quick")
 
-RVIAS = ["rows", "flat", "shape", "rowview", "colview", "stepview", "revview", "listview", "ufunc"]
+RVIAS = ["rows", "flat", "shape", "rowview", "colview", "stepview", "revview", "listview", "ufunc", "assigned"]
+PRES = [None, ["sum"], ["repr"], ["unique"], ["max"], ["rowmean"], ["size", "sum"], ["any", "pad"], ["colsum"], ["sum", "unique"]]
 
 
 def _h(case, salt=0):
@@ -26,19 +27,19 @@ def variants(prop, case):
     if op in ("getitem", "setitem"):
         sp = ["plain", "tuple", "empty"][h % 3]
         v = RVIAS[(h // 3) % len(RVIAS)]
-        out = [{"via": "flat", "spelling": "plain"}, {"via": v, "spelling": sp}]
+        out = [{"via": "flat", "spelling": "plain"}, {"via": v, "spelling": sp, "pre": PRES[(h // 64) % len(PRES)]}]
         if op == "setitem":
             out[1]["npscalar"] = bool(h & 8)
             out[1]["collist"] = bool(h & 16)
         return out
     if op == "ufunc":
-        return [{"via": "flat", "how": "ufunc"}, {"via": RVIAS[h % len(RVIAS)], "how": ["ufunc", "operator"][(h // 16) % 2]}]
+        return [{"via": "flat", "how": "ufunc"}, {"via": RVIAS[h % len(RVIAS)], "how": ["ufunc", "operator"][(h // 16) % 2], "pre": PRES[(h // 64) % len(PRES)]}]
     if op == "reduce":
-        return [{"via": "flat", "how": "method"}, {"via": RVIAS[h % len(RVIAS)], "how": ["method", "np"][(h // 16) % 2]}]
+        return [{"via": "flat", "how": "method"}, {"via": RVIAS[h % len(RVIAS)], "how": ["method", "np"][(h // 16) % 2], "pre": PRES[(h // 64) % len(PRES)]}]
     if op in ("scan", "nonzero", "col"):
-        return [{"via": "flat"}, {"via": RVIAS[h % len(RVIAS)], "how": ["method", "np"][(h // 16) % 2]}]
+        return [{"via": "flat"}, {"via": RVIAS[h % len(RVIAS)], "how": ["method", "np"][(h // 16) % 2], "pre": PRES[(h // 64) % len(PRES)]}]
     if op in ("like", "pad"):
-        return [{"via": "flat"}, {"via": RVIAS[h % len(RVIAS)]}]
+        return [{"via": "flat"}, {"via": RVIAS[h % len(RVIAS)], "pre": PRES[(h // 64) % len(PRES)]}]
     if op == "concat":
         n = len(case[1])
         return [{"via": "flat"}, {"vias": [RVIAS[(h + 3 * i) % len(RVIAS)] for i in range(n)], "explicit_axis": bool(h & 32)}]
